@@ -139,6 +139,29 @@ class Check:
         res = [l for l in out.split("\n") if l.strip()]
         return res, rc, err
 
+    def build_js(self):
+        """re-strip the client runtime from /repo's working tree"""
+        rc, out, err, dt = sh([os.path.join(JS, "build.sh")], timeout=600)
+        self.coverage["js_build_s"] = round(dt, 1)
+        if rc != 0:
+            self.say(out[-2000:], err[-2000:])
+            raise SystemExit("JS runtime strip failed")
+
+    def translate(self, script):
+        """run a (T) translator; returns (ok, message)"""
+        rc, out, err, dt = sh([sys.executable, os.path.join(VERIF, "tools", "translate", script)], timeout=600)
+        return rc == 0, (out + err).strip()
+
+    def gen_js(self, mode, seed, count, *params):
+        rc, out, err, dt = sh(["node", os.path.join(JS, "host.mjs"), mode, "gen", str(seed), str(count)] + [str(p) for p in params], timeout=3600)
+        if rc != 0:
+            raise SystemExit("js generator failed: " + err[-2000:])
+        return [l for l in out.split("\n") if l.strip()]
+
+    def run_impl_js(self, mode, lines, timeout=3600):
+        rc, out, err, dt = sh(["node", "--stack-size=4000", os.path.join(JS, "host.mjs"), mode, "run"], input="\n".join(lines) + "\n", timeout=timeout)
+        return [l for l in out.split("\n") if l.strip()], rc, err
+
     def run_model(self, lines, timeout=3600):
         rc, out, err, dt = sh([MODEL], input="\n".join(lines) + "\n", timeout=timeout)
         return [l for l in out.split("\n") if l.strip()], rc, err
@@ -153,6 +176,9 @@ class Check:
         return path
 
     def violation(self, kind, body, found_input=True):
+        if len(self.violations) >= 25:   # keep counting, stop writing files
+            self.violations.append((self.violations[-1][0], "" if found_input else " no-failing-input-found"))
+            return
         path = self.write_replay(kind, body)
         self.violations.append((path, "" if found_input else " no-failing-input-found"))
 
@@ -197,14 +223,14 @@ def split_reply(line):
     return line, "(oracle none)"
 
 
-def corr_pass(chk, mode, lines, label, known_matcher=None, nontrivial=None, model_lines=None):
+def corr_pass(chk, mode, lines, label, known_matcher=None, nontrivial=None, model_lines=None, engine="rs"):
     """Run impl and model on the same request lines; compare replies; consult the impl-side oracle.
     Returns stats dict. Classification (DESIGN.md §6):
       reply differs + oracle fail  -> violation with the request as failing input
       reply differs + oracle ok    -> tie broken; reported once as no-failing-input-found unless a failing input exists
       reply equal   + oracle fail  -> property false of model and code: known finding (if recorded) else violation
     """
-    impl, rc, err = chk.run_impl(mode, lines)
+    impl, rc, err = (chk.run_impl_js if engine == "js" else chk.run_impl)(mode, lines)
     model, rc2, err2 = chk.run_model(model_lines if model_lines is not None else lines)
     stats = {"requests": len(lines), "mismatch": 0, "oracle_fail": 0, "known": 0, "nontrivial": 0}
     if len(impl) != len(lines):
